@@ -717,7 +717,38 @@ def _is_introspect_route(n):
 
 
 def replay_factory(inputs, ob):
-    return ReplayResult(False, "factory slice: see the obligation's site; replay by constructing make_wsgi_app is covered by the repo's own tests")
+    """Build the real app natively for the model's configuration and look the endpoint up in falcon's router."""
+    import warnings
+    from typing import Protocol
+
+    from vgi_rpc.rpc import RpcServer
+
+    class _P(Protocol):
+        def ping(self) -> int: ...
+
+    class _Impl:
+        def ping(self) -> int:
+            return 1
+
+    has_resolver = bool(inputs.get("has_resolver"))
+    p0 = inputs.get("p0", "proxy") if isinstance(inputs.get("p0", "proxy"), str) else "proxy"
+    principals = None if inputs.get("principals") == "none" else [p0]
+    resolver = (lambda tok: None) if has_resolver else None
+    want = {p for p in (principals or []) if p}
+    try:
+        with warnings.catch_warnings():
+            warnings.simplefilter("ignore")
+            app = fac.make_wsgi_app(RpcServer(_P, _Impl()), prefix="/vgi", token_key=b"k" * 32, introspect_resolver=resolver, introspect_principals=principals)
+    except ValueError as e:
+        ok = (has_resolver and not want) or (not has_resolver and bool(principals))
+        return ReplayResult(not ok, f"make_wsgi_app(resolver={'set' if has_resolver else None}, principals={principals!r}) raised ValueError: {str(e)[:60]}")
+    found = app._router.find("/vgi" + it.INTROSPECT_ENDPOINT)
+    res = found[0] if found else None
+    if not has_resolver:
+        bad = not isinstance(res, it._IntrospectionDisabledResource)
+    else:
+        bad = not isinstance(res, it._TokenIntrospectionResource) or set(res._principals) != want or not want
+    return ReplayResult(bad, f"make_wsgi_app(resolver={'set' if has_resolver else None}, principals={principals!r}) routes {type(res).__name__} allowlist={getattr(res, '_principals', None)!r}")
 
 
 @unit(
@@ -732,6 +763,7 @@ def factory(S):
     norm_raises = S.choose(2) == 1 if has_resolver else False
     resolver = SObj(None, kind="Resolver") if has_resolver else None
     principals = None if pr_kind == "none" else [S.str("p0")]
+    S.inputs.update({"has_resolver": has_resolver, "principals": pr_kind})
     normalised = SObj(None, kind="Allowlist")
     routes = []
     app = SObj(None, kind="App")
